@@ -356,6 +356,64 @@ func normTerm(t string) string {
 		}
 		t = n
 	}
+	// path algebra for a last element that is the (clean, relative, non-empty) result of filepath.Rel on a walked file:
+	//   Dir(Join(a..., rel))  == Join(a..., Dir(rel))     Base(Join(a..., rel)) == Base(rel)
+	for i := 0; i < 4; i++ {
+		n := pushDirBase(t)
+		if n == t {
+			break
+		}
+		t = n
+	}
+	return t
+}
+
+func pushDirBase(t string) string {
+	for _, op := range []string{"Dir", "Base"} {
+		pre := op + "(Join(list("
+		i := strings.Index(t, pre)
+		if i < 0 {
+			continue
+		}
+		j := i + len(pre)
+		// split the list content at top-level commas
+		depth, start := 0, j
+		var elems []string
+		k := j
+		for ; k < len(t); k++ {
+			ch := t[k]
+			if ch == '(' {
+				depth++
+			} else if ch == ')' {
+				if depth == 0 {
+					break
+				}
+				depth--
+			} else if ch == ',' && depth == 0 {
+				elems = append(elems, strings.TrimSpace(t[start:k]))
+				start = k + 1
+			}
+		}
+		if k >= len(t) {
+			continue
+		}
+		elems = append(elems, strings.TrimSpace(t[start:k]))
+		// t[k] closes list(, t[k+1] must close Join(, t[k+2] must close op(
+		if k+2 >= len(t) || t[k+1] != ')' || t[k+2] != ')' || len(elems) < 2 {
+			continue
+		}
+		last := elems[len(elems)-1]
+		if !strings.HasPrefix(last, "Rel#0(") {
+			continue
+		}
+		var repl string
+		if op == "Dir" {
+			repl = "Join(list(" + strings.Join(elems[:len(elems)-1], ", ") + ", Dir(" + last + ")))"
+		} else {
+			repl = "Base(" + last + ")"
+		}
+		return t[:i] + repl + t[k+3:]
+	}
 	return t
 }
 
@@ -624,6 +682,7 @@ func c16Flow(c *Ctx) {
 			for i := range names {
 				names[i] = normTerm(names[i])
 			}
+			names = uniq(names)
 			c.check(len(names) == 1 && names[0] == "Base("+rel+")", "C16.3", where+":file-name", L.pos(cs.instr.Pos()),
 				"the installed file keeps its name from the embedded tree", "file name term: "+strings.Join(names, " | "))
 			content := subst(s.eval(cs.arg(2)))
@@ -631,6 +690,7 @@ func c16Flow(c *Ctx) {
 				content[i] = normTerm(content[i])
 			}
 			wantContent := "io/fs.ReadFile#0(agent.SkillsFS(" + ag + "), " + walked + ")"
+			content = uniq(content)
 			c.check(len(content) == 1 && content[0] == wantContent, "C16.3", where+":content", L.pos(cs.instr.Pos()),
 				"the installed bytes are exactly fs.ReadFile(embedded FS, walked path)", "content term: "+strings.Join(content, " | "))
 
